@@ -14,9 +14,12 @@ import (
 // runs the same script of stateless calls and private-key operations with its own state. Every goroutine must obtain
 // the same results. Under a -race build this is where lazily initialised package state shows up as a data race.
 func coldMain(args []string) {
-	n := 16
+	n, rounds := 16, 2
 	if len(args) > 0 {
 		n, _ = strconv.Atoi(args[0])
+	}
+	if len(args) > 1 {
+		rounds, _ = strconv.Atoi(args[1])
 	}
 	seed := make([]byte, 48)
 	for i := range seed {
@@ -24,15 +27,19 @@ func coldMain(args []string) {
 	}
 	scriptFor := func(t int) []string {
 		ds := append([]byte{}, seed...)
-		ds[0] = byte(t % 4) // four different Dilithium keys in flight at once
-		return []string{
+		ds[0] = byte(t % 2) // two different Dilithium keys alternate (a single-slot cache thrashes and still hits)
+		sc := []string{
 			"m.dec48 " + hx([]byte("aback abbey")),
 			"m.enc " + hx(seed),
 			"d.new 10 2 0 0", "d.frombytes 120500", "x.wparams 16",
 			fmt.Sprintf("x.new k %s 4 %d 0", hx(seed), t%3), "x.sign k 00", "x.info k",
-			fmt.Sprintf("dl.new d %s", hx(ds)), "dl.sign d 0102", "dl.sign d " + hx(seed[:7]),
+			fmt.Sprintf("dl.new d %s", hx(ds)),
 			"a.xmssvalid " + hx(seed[:20]), "js.xvalid " + hx([]byte("0x0102"+"000000000000000000000000000000000000")),
 		}
+		for r := 0; r < rounds; r++ {
+			sc = append(sc, fmt.Sprintf("dl.sign d %02x%02x", r, t%2))
+		}
+		return sc
 	}
 	run := func(t int) string {
 		st := newState()
